@@ -119,7 +119,10 @@ public:
         // Build first level
         auto in_fun = [&](auto i) { return first[i]; };
         auto out_fun = [&](auto cs) { segments.emplace_back(cs); };
-        auto last_n = internal::make_segmentation_par(n, Epsilon, in_fun, out_fun);
+        // The segmentation must be sequential: CompressedLevel stores the intercepts in a strictly increasing sequence,
+        // which holds only if consecutive segments start more than 2*Epsilon positions apart. The short segments that
+        // a chunked segmentation leaves at the end of each chunk would be shifted by the clamping of the intercepts.
+        auto last_n = internal::make_segmentation(n, Epsilon, in_fun, out_fun);
         if (segments.back().get_first_x() == sentinel) { // segment made of the closing point only, as in PGMIndex
             segments.pop_back();
             --last_n;
